@@ -258,7 +258,7 @@ Forget1(s) == [s EXCEPT !.n = IF s.k = "method" THEN 0 ELSE s.n, !.ts = [i \in 1
 WithLay(s, l) == [s EXCEPT !.lay = l]
 WithOff(s, o) == [s EXCEPT !.off = o]
 Lays == {"Unknown", "LengthCapacityData"}
-LeafQ == {SPrim("u8"), SPrim("i8"), SPrim("u32"), SPrim("bool"), SZero, SN("str", "", 0, <<>>), SN("utc", "", 0, <<>>),
+LeafQ == {SPrim("u8"), SPrim("i8"), SPrim("u32"), SPrim("bool"), SPrim("canary1"), SPrim("char"), SPrim("f32"), SZero, SN("str", "", 0, <<>>), SN("utc", "", 0, <<>>),
           SN("ioerror", "", 0, <<>>), SN("custom", "cu", 0, <<>>), SN("recursion", "", 1, <<>>), SN("undefined", "", 0, <<>>)}
          \cup {WithLay(SPrim("string"), l) : l \in Lays}
 LeafS == {SPrim("u8"), SPrim("u32"), WithLay(SPrim("string"), "Unknown")}    \* small leaf set for nesting
@@ -312,7 +312,9 @@ Universe == LeafQ \cup Depth1 \cup AbiNodes \cup BigTrees \cup {SN("boxed", "", 
 (* ------------------------------------------------------------------ *)
 (* Single mutations that alter the wire layout                         *)
 (* ------------------------------------------------------------------ *)
-OtherPrim(s) == IF s.s = "u8" THEN SPrim("i8") ELSE IF s.s = "string" THEN SPrim("u8") ELSE SPrim("u8")
+\* another primitive kind; for the 4-byte kinds one of the SAME width (u32 / canary1 / char / f32 differ in kind only)
+OtherPrim(s) == CASE s.s = "u8" -> SPrim("i8") [] s.s = "string" -> SPrim("u8") [] s.s = "u32" -> SPrim("canary1")
+                  [] s.s = "canary1" -> SPrim("u32") [] s.s = "char" -> SPrim("u32") [] s.s = "f32" -> SPrim("u32") [] OTHER -> SPrim("u8")
 RECURSIVE WireMutants(_)
 WireMutants(s) ==
     \* change at the root
